@@ -2,19 +2,42 @@ from specs import KEYS, CHECKS, unit
 
 KEYS['keepclient_c03'] = {'pkg': 'sdk/go/keepclient'}
 
+_RUN = {'timeout': 1500}
+
 CHECKS['C03'] = {
-    'ready': False,
+    'ready': True,
     'level': 'exploration',
-    'rule': 'todo',
-    'assumptions': [],
+    'rule': 'real KeepClient (real http.Transport, fresh per case) against 1-4 scripted loopback Keep services (+ optional gateway reached '
+            'through a +K@uuid hint) that write raw HTTP; per (service, n-th request) one of 22 behaviours: correct (Content-Length / '
+            'with trailing junk outside the framing / chunked / until-close), bit flip, short body with honest or matching '
+            'Content-Length, long body, Content-Length lie, chunked short/long/flipped/unterminated, no-length short/long/flipped, '
+            '404, other 4xx, 408/429/5xx, reset or close before any byte, reset after the headers; Retries 0-3; block sizes '
+            '{0,1,2-300,301-5000,65537,up to 1 MiB}; locators bare hash or hash+size(+A/+Z/+K hints). Access modes: Get streamed with '
+            'generated read sizes, Get+WriteTo, Get+partial read+Close (unit get); ReadAt histories over 1-3 blocks through a fresh '
+            'BlockCache (MaxBlocks default/1/2) with the services healed or broken between calls (units cache, cacheU = bare-hash '
+            'locators); File.Read/Seek on a CollectionFileReader over a generated 1-2 stream manifest (unit file); 2-8 concurrent '
+            'ReadAt / file readers of one block sharing the cache (units conc, race = same under -race in a child process; race '
+            'reports are recorded as information only); one fixed scenario: bare-hash locator answered with Content-Length 64 MiB+1 '
+            '(unit oversize). Oracle: true content held by the harness + request log of the fakes. A case is non-trivial when at '
+            'least one non-correct answer was actually served before the result. distinct = fingerprint of (mode, locator, '
+            'requests actually served with their behaviours, operation history)',
+    'assumptions': [
+        'every connection carries one exchange (responses say Connection: close); keep-alive reuse is not exercised',
+        'a 200 without Content-Length for a locator without size hint is refused by the client by design; the harness adopts that outcome (error allowed, success must still carry the right bytes)',
+        'reset-after-headers is treated as ambiguous (the client may see a bad 200 or a connection failure); only the data oracle applies to it',
+        'bare-hash locators through ReadAt make BlockCache allocate 64 MiB per fetch, so they are explored with a small case count (unit cacheU)',
+        'TLS, proxies timeouts, and the Python/Ruby clients are not covered',
+    ],
+    'technique': 'property-based testing (rapid) with a scripted raw-HTTP fake Keep service and a request-log oracle',
     'units': [
-        unit('get', 'keepclient_c03', '^TestVerifC03Get$', {'shards': 5, 'checks': 300}, {'shards': 5, 'checks': 15000, 'timeout': 1500}),
-        unit('cache', 'keepclient_c03', '^TestVerifC03Cache$', {'shards': 4, 'checks': 200}, {'shards': 4, 'checks': 8000, 'timeout': 1500}),
-        unit('cacheU', 'keepclient_c03', '^TestVerifC03Cache$', {'shards': 1, 'checks': 25}, {'shards': 1, 'checks': 400, 'timeout': 1500},
+        unit('get', 'keepclient_c03', '^TestVerifC03Get$', {'shards': 5, 'checks': 250}, dict(_RUN, shards=5, checks=12000)),
+        unit('cache', 'keepclient_c03', '^TestVerifC03Cache$', {'shards': 4, 'checks': 120}, dict(_RUN, shards=4, checks=6000)),
+        unit('cacheU', 'keepclient_c03', '^TestVerifC03Cache$', {'shards': 1, 'checks': 25}, dict(_RUN, shards=1, checks=300),
              env={'C03_UNSIZED_PCT': '40'}),
-        unit('file', 'keepclient_c03', '^TestVerifC03File$', {'shards': 3, 'checks': 300}, {'shards': 3, 'checks': 10000, 'timeout': 1500}),
-        unit('conc', 'keepclient_c03', '^TestVerifC03Concurrent$', {'shards': 2, 'checks': 150}, {'shards': 2, 'checks': 6000, 'timeout': 1500}),
-        unit('race', 'keepclient_c03', '^TestVerifC03Race$', {'shards': 1, 'checks': 25}, {'shards': 1, 'checks': 600, 'timeout': 1500},
+        unit('file', 'keepclient_c03', '^TestVerifC03File$', {'shards': 3, 'checks': 250}, dict(_RUN, shards=3, checks=10000)),
+        unit('conc', 'keepclient_c03', '^TestVerifC03Concurrent$', {'shards': 2, 'checks': 100}, dict(_RUN, shards=2, checks=5000)),
+        unit('race', 'keepclient_c03', '^TestVerifC03Race$', {'shards': 1, 'checks': 12}, dict(_RUN, shards=1, checks=500),
              race=True),
+        unit('oversize', 'keepclient_c03', '^TestVerifC03OversizeCL$', {'shards': 1}, {'shards': 1}, rapid=False),
     ],
 }
